@@ -198,6 +198,63 @@ func Generate(rng *rand.Rand, i int, thorough bool) *p2prig.Scenario {
 			s.Announce[k].Nodes = nil
 		}
 	}
+	// the honest network reorganises after the initial sync: the peer announces (by inv, or by headers once asked to) the
+	// tip of a branch that replaces its last few blocks. Its getheaders answers are capped well below the fork height, so
+	// only a request that locates the fork point makes progress.
+	if s.Engine == "legacy" && i%8 == 3 {
+		c := []int{8, 12, 50}[rng.Intn(3)]
+		s.HonestLen = c + 20 + rng.Intn(150)
+		depth := 1 + rng.Intn(4)
+		s.CheckpointHeights = []int32{int32(1 + rng.Intn(s.HonestLen-depth-8))}
+		s.DisableCheckpoints = rng.Intn(4) == 0
+		s.InitialStore, s.PrefixLen = "genesis", 0
+		if rng.Intn(2) == 0 {
+			s.InitialStore, s.PrefixLen = "prefix", s.HonestLen-rng.Intn(3)
+		}
+		s.Nodes = []p2prig.NodeSpec{{Kind: "honest", Cap: c}}
+		if rng.Intn(2) == 0 {
+			s.Nodes = append(s.Nodes, p2prig.NodeSpec{Kind: "laggard", Lag: 1 + rng.Intn(3), Cap: c, MaxLive: 2})
+		}
+		s.DropNode0AfterSync, s.WaitReconnect, s.SlowConvergeWaitSec = false, false, 0
+		s.Announce = []p2prig.AnnounceSpec{{Blocks: rng.Intn(2), Reorg: depth, Mode: []string{"inv", "inv", "conformant"}[rng.Intn(3)]}}
+		if rng.Intn(2) == 0 {
+			s.Announce = append([]p2prig.AnnounceSpec{{Blocks: 1, Mode: "conformant"}}, s.Announce...)
+		}
+		return s
+	}
+	// the sync peer goes away right after the reply that carries a checkpoint block; the service re-dials and has to carry on
+	// from there
+	if s.Engine == "legacy" && i%8 == 7 {
+		// what follows the last checkpoint takes far more replies than the announcement rounds at the end could make up for
+		cp := []int{3, 5, 7}[rng.Intn(3)]
+		s.HonestLen = 150 + rng.Intn(200)
+		n := 1 + rng.Intn(3)
+		set := map[int32]bool{}
+		for len(set) < n {
+			set[int32(2+rng.Intn(s.HonestLen-122))] = true
+		}
+		s.CheckpointHeights = nil
+		for h := range set {
+			s.CheckpointHeights = append(s.CheckpointHeights, h)
+		}
+		sort.Slice(s.CheckpointHeights, func(a, b int) bool { return s.CheckpointHeights[a] < s.CheckpointHeights[b] })
+		s.DisableCheckpoints = false
+		at := int(s.CheckpointHeights[rng.Intn(len(s.CheckpointHeights))])
+		s.InitialStore, s.PrefixLen = "genesis", 0
+		if rng.Intn(3) == 0 {
+			s.InitialStore, s.PrefixLen = "prefix", 1+rng.Intn(at-1)
+		}
+		s.Nodes = []p2prig.NodeSpec{{Kind: "honest", Cap: cp, DropAfterHeight: at}}
+		if rng.Intn(2) == 0 {
+			s.Nodes = append(s.Nodes, p2prig.NodeSpec{Kind: "laggard", Lag: 1 + rng.Intn(10), MaxLive: 2, Cap: s.Nodes[0].Cap})
+		}
+		s.DropNode0AfterSync, s.SlowConvergeWaitSec = false, 0
+		s.WaitReconnect = true
+		for k := range s.Announce {
+			s.Announce[k].Nodes = nil
+		}
+		return s
+	}
 	if thorough && nPeers > 1 && rng.Intn(30) == 0 {
 		// a non-honest peer stalls (never answers getheaders): needs the 30-45 s stall detection
 		for j := 1; j < nPeers; j++ {
@@ -231,6 +288,9 @@ func Classify(s *p2prig.Scenario) string {
 		if n.DisconnectAtMsg > 0 {
 			k += "(drop)"
 		}
+		if n.DropAfterHeight > 0 {
+			k += "(drop-after-checkpoint-reply)"
+		}
 		if n.Silent {
 			k += "(stall)"
 		}
@@ -239,6 +299,9 @@ func Classify(s *p2prig.Scenario) string {
 	ann := []string{}
 	for _, a := range s.Announce {
 		m := a.Mode
+		if a.Reorg > 0 {
+			m += "(reorg)"
+		}
 		if len(a.Nodes) > 1 {
 			m += "x2"
 		}
